@@ -57,6 +57,9 @@ func (t *Table) Add(s string) {
 		return
 	}
 	t.set[s] = struct{}{}
+	if strings.HasPrefix(s, "$[") && strings.HasSuffix(s, "]") {
+		t.Add(s[2 : len(s)-1])
+	}
 	if strings.Contains(s, ".") {
 		for _, seg := range strings.Split(s, ".") {
 			t.Add(seg)
@@ -85,11 +88,24 @@ func (t *Table) JSON() map[string]interface{} {
 		if n, ok := bsonkit.ParseIndex(s); ok && n < 1<<20 {
 			idx = n
 		}
+		// positional operator kind of a path segment: "$" implicit, "$[]" all,
+		// "$[id]" identified, any other "$..." none
+		pk, id := "none", ""
+		switch {
+		case s == "$":
+			pk = "implicit"
+		case s == "$[]":
+			pk = "all"
+		case strings.HasPrefix(s, "$[") && strings.HasSuffix(s, "]"):
+			pk, id = "id", s[2:len(s)-1]
+		}
 		out[s] = map[string]interface{}{
 			"c":  codes,
 			"p":  segs,
 			"i":  idx,
 			"op": len(s) > 0 && s[0] == '$',
+			"pk": pk,
+			"id": id,
 		}
 	}
 	return out
